@@ -17,6 +17,7 @@ import shutil
 import subprocess
 
 import runner
+from checks import c12
 import vlib
 from vlib import hexs
 
@@ -1031,7 +1032,7 @@ class NamesStream(runner.Stream):
 
 class Spec(runner.Spec):
     prop = "C09"
-    streams = [NamesStream()]
+    streams = [NamesStream(), c12.ResolveWitnesses()]
     assumptions = [
         "rustc acceptance is NOT modelled: `cargo check` of the files written by the real generator is the oracle (exploration level); derives, trait coherence and type checking are rustc's",
         "identifiers are ASCII (X.680 12.2/12.3); the Lean mirror uses ASCII character predicates where the Rust code uses Unicode ones",
